@@ -258,7 +258,8 @@ def check(prop, tier, seed, t0):
                 hit = None
                 if res['kind'] == 'fn' and res['name'] not in fuzzed:
                     try:
-                        hit, tried = native.fuzz_contract(res['name'], seed, 300, reg)
+                        wanted_ = [o2.get('label') for o2 in mine if o2['verdict'] not in ('discharged', 'reachable', 'unknown-reachability', 'known-finding') and o2.get('label')]
+                        hit, tried = native.fuzz_contract(res['name'], seed, 300, reg, want_labels=wanted_)
                     except Exception:
                         hit, tried = None, 0
                     fuzzed[res['name']] = hit
